@@ -84,7 +84,10 @@ def classify(G, placement, seeded, kind="plain"):
             a = float(h(jr.key(1), x))
             b = float(h(jr.key(1), x))
             c = float(h(jr.key(2), x))
-            d = float(jax.jit(h)(jr.key(1), x))
+            try:
+                d = float(jax.jit(h)(jr.key(1), x))
+            except Exception:
+                return "seeded-jit-differs"      # eager seeded call returned a value, the compiled one raises
             if math.isnan(a):
                 return "replicated"
             if a != b:
